@@ -2,6 +2,7 @@ package props
 
 import (
 	"bytes"
+	"errors"
 	"fmt"
 	"testing"
 	"time"
@@ -72,8 +73,10 @@ func (o wOp) String() string {
 }
 
 type c17WCase struct {
-	Ops   []wOp `json:"ops"`
-	Sched []int `json:"sched,omitempty"` // virtual-time delays (microseconds) at the hook sites, cyclic
+	Ops      []wOp `json:"ops"`
+	Sched    []int `json:"sched,omitempty"`    // virtual-time delays (microseconds) at the hook sites, cyclic
+	SinkFail int   `json:"sinkfail,omitempty"` // > 0: the k-th Write call on every sink fails (once, or from then on)
+	Sticky   bool  `json:"sticky,omitempty"`
 }
 
 // recorded option vector of the model (NewWriter defaults)
@@ -246,10 +249,21 @@ func (r *wRun) run(c c17WCase) {
 	for _, op := range c.Ops {
 		total += op.N
 	}
-	newSink := func() *inst.Sink { return &inst.Sink{Cap: 48<<20 + 2*total} }
+	class := func(s string) { r.classes = append(r.classes, s) }
+	newSink := func() *inst.Sink {
+		return &inst.Sink{Cap: 48<<20 + 2*total, FailAt: c.SinkFail, Sticky: c.Sticky}
+	}
+	// a call that reports the injected sink failure puts the object into its error state: from then on, until Reset,
+	// calls may fail but must neither hang nor panic
+	injected := func(err error) bool {
+		if err != nil && c.SinkFail > 0 && errors.Is(err, inst.ErrInjected) {
+			class("sink-failure/reported")
+			return true
+		}
+		return false
+	}
 	sink := newSink()
 	w := lz4.NewWriter(sink)
-	class := func(s string) { r.classes = append(r.classes, s) }
 	for i, op := range c.Ops {
 		r.cur = i
 		conc := "seq"
@@ -279,6 +293,10 @@ func (r *wRun) run(c c17WCase) {
 			n, err := writeScribbled(w, data)
 			switch state {
 			case wsFresh, wsOpen:
+				if injected(err) {
+					state = wsErrored
+					break
+				}
 				if err != nil || n != len(data) {
 					r.fail = stat.Failf("C17/writer/legal-write-fails/"+errClass(err), "%s: (%d, %v)", where, n, err)
 					return
@@ -302,6 +320,10 @@ func (r *wRun) run(c c17WCase) {
 			n, err := w.ReadFrom(bytes.NewReader(data))
 			switch state {
 			case wsFresh:
+				if injected(err) {
+					state = wsErrored
+					break
+				}
 				if err != nil || n != int64(len(data)) {
 					r.fail = stat.Failf("C17/writer/legal-readfrom-fails/"+errClass(err), "%s: (%d, %v)", where, n, err)
 					return
@@ -338,6 +360,10 @@ func (r *wRun) run(c c17WCase) {
 			err := w.Flush()
 			switch state {
 			case wsFresh, wsOpen:
+				if injected(err) {
+					state = wsErrored
+					break
+				}
 				if err != nil {
 					r.fail = stat.Failf("C17/writer/legal-flush-fails/"+errClass(err), "%s: %v", where, err)
 					return
@@ -370,6 +396,14 @@ func (r *wRun) run(c c17WCase) {
 			err := w.Close()
 			switch state {
 			case wsFresh, wsOpen:
+				if injected(err) {
+					state = wsErrored
+					break
+				}
+				if c.SinkFail > 0 && len(sink.FailedAt) > 0 {
+					r.fail = stat.Failf("C17/writer/sink-failure-never-reported", "%s: the sink failed at call(s) %v, Close returned %v", where, sink.FailedAt, err)
+					return
+				}
 				if err != nil {
 					r.fail = stat.Failf("C17/writer/legal-close-fails/"+errClass(err), "%s: %v", where, err)
 					return
@@ -547,9 +581,36 @@ func drawC17WEpochs(t *rapid.T) c17WCase {
 	return c
 }
 
+// drawC17WAfterFailure: a sink that fails early, and a caller that carries on regardless (more Writes, Flush, Close,
+// Close again) before it finally Resets: nothing of that may hang or panic, and after Reset the object is as new.
+func drawC17WAfterFailure(t *rapid.T) c17WCase {
+	var c c17WCase
+	c.SinkFail = rapid.IntRange(1, 5).Draw(t, "sinkfail")
+	c.Sticky = rapid.Bool().Draw(t, "sticky")
+	d := &optDelta{BS: ip(4), Conc: ip(rapid.SampledFrom([]int{1, 1, 2, 4}).Draw(t, "conc"))}
+	if rapid.IntRange(0, 3).Draw(t, "legacy?") == 0 {
+		d.Legacy = bp(true)
+	}
+	c.Ops = append(c.Ops, wOp{Op: "apply", Set: d})
+	ops := []string{"write", "write", "flush", "close", "close", "readfrom"}
+	for i := rapid.IntRange(2, 9).Draw(t, "n"); i > 0; i-- {
+		op := wOp{Op: rapid.SampledFrom(ops).Draw(t, "op")}
+		if op.Op == "write" || op.Op == "readfrom" {
+			op.N = rapid.SampledFrom([]int{0, 5, 100, 65536, 70000, 200000}).Draw(t, "n")
+			op.Seed = rapid.Uint64Range(0, 1000).Draw(t, "seed")
+		}
+		c.Ops = append(c.Ops, op)
+	}
+	c.Ops = append(c.Ops, wOp{Op: "reset"}, wOp{Op: "write", N: 9, Seed: 3}, wOp{Op: "close"})
+	return c
+}
+
 func drawC17W(t *rapid.T) c17WCase {
-	if rapid.IntRange(0, 2).Draw(t, "mode") == 0 {
+	switch rapid.IntRange(0, 5).Draw(t, "mode") {
+	case 0, 1:
 		return drawC17WEpochs(t)
+	case 2:
+		return drawC17WAfterFailure(t)
 	}
 	var c c17WCase
 	n := rapid.IntRange(1, pick(14, 40)).Draw(t, "nops")
@@ -610,6 +671,11 @@ func drawC17W(t *rapid.T) c17WCase {
 	if rapid.Bool().Draw(t, "sched?") {
 		c.Sched = rapid.SliceOfN(rapid.SampledFrom([]int{0, 0, 1, 2, 5, 50}), 1, 17).Draw(t, "sched")
 	}
+	if rapid.IntRange(0, 4).Draw(t, "sinkfail?") == 0 {
+		// histories that go on after a sink failure (without Reset: may fail, must not hang or panic; after Reset: as new)
+		c.SinkFail = rapid.IntRange(1, 8).Draw(t, "sinkfail")
+		c.Sticky = rapid.Bool().Draw(t, "sticky")
+	}
 	return c
 }
 
@@ -628,7 +694,7 @@ func TestC17Writer(t *testing.T) {
 	bubbleT = t
 	rec := stat.For("C17")
 	rec.SetRule(c17Rule)
-	rec.Require("writer/nontrivial", "writer/misuse/write-after-close", "writer/misuse/double-close", "writer/reuse/reset-after-close", "writer/misuse/apply-after-first-write", "writer/misuse/reset-without-close", "writer/flush/sequential-prefix-checked", "writer/epoch/closed-after-a-reset")
+	rec.Require("writer/nontrivial", "writer/sink-failure/reported", "writer/misuse/write-after-close", "writer/misuse/double-close", "writer/reuse/reset-after-close", "writer/misuse/apply-after-first-write", "writer/misuse/reset-without-close", "writer/flush/sequential-prefix-checked", "writer/epoch/closed-after-a-reset")
 	checkProp(t, "C17", "C17/writer", pick(2500, 80000), drawC17W, runC17W)
 }
 
